@@ -1421,6 +1421,76 @@ def run_dsessions(ctx):
             k = next((i for i, (g, w) in enumerate(zip(got, want)) if g != w), min(len(got), len(want)))
             ctx.disagree('C04 dtype bookkeeping', {'dsession': ds, 'call': k, 'impl': got[k] if k < len(got) else None, 'model': want[k] if k < len(want) else ans})
 
+# ---------------------------------------------------------------------------------------------
+# absorbing medium: complex refractive index n + i kappa, kappa > 0 (oracle only: the model's index is rational)
+
+def gen_ccase(rng):
+    case = gen_case(rng)
+    nx, ny = case['dims']
+    dx, dy = case['delta']
+    zmax = min(dx, dy) * max(nx * dx, ny * dy) / case['lam']
+    z = zmax * int(rng.integers(1, 65)) / 64.0 * (1 if rng.random() < 0.5 else -1)
+    case.update({'z': z, 'z2': z / 4, 'wf': 'scalar', 'stokes': None, 'alias': False, 'n_im': [1 / 256, 1 / 64, 1 / 32, 1 / 8][int(rng.integers(0, 4))]})
+    return case
+
+
+def oracle_ccase(case):
+    import hcipy
+    bad = []
+    grid = build_grid(case)
+    w = float(np.asarray(grid.weights).ravel()[0])
+    reg = exact_regime(case)
+    kind, z = case['kind'], case['z']
+    cn = complex(case['n'], case['n_im'])
+
+    def mk(zz):
+        if kind == 'fresnel':
+            return hcipy.FresnelPropagator(grid, zz, num_oversampling=spell(case['s'], case.get('sspell'), integer=True),
+                                           zero_padding=spell(case['q'], case.get('qspell')), refractive_index=cn)
+        return hcipy.AngularSpectrumPropagator(grid, zz, num_oversampling=spell(case['s'], case.get('sspell'), integer=True), refractive_index=cn)
+    x, y = make_field(case, grid, 0), make_field(case, grid, 1)
+    try:
+        prop = mk(z)
+        wfx = hcipy.Wavefront(x.copy(), case['lam'])
+        fx = prop.forward(wfx)
+        fy = prop.forward(hcipy.Wavefront(y.copy(), case['lam']))
+        by = prop.backward(hcipy.Wavefront(y.copy(), case['lam']))
+        bx = prop.backward(hcipy.Wavefront(x.copy(), case['lam']))
+        fm = mk(-z).forward(hcipy.Wavefront(x.copy(), case['lam']))
+        a, b = 0.5 - 1.25j, -2.0 + 0.75j
+        comb = prop.forward(hcipy.Wavefront(a * x + b * y, case['lam']))
+    except Exception as e:
+        return [('raises %s complex-index %s' % (type(e).__name__, kind), 'propagation in an absorbing medium raised %s: %s' % (type(e).__name__, e))]
+    efx, efy = np.asarray(fx.electric_field), np.asarray(fy.electric_field)
+    scale = max(1.0, float(np.abs(efx).max()), float(np.abs(efy).max()))
+    lin = float(np.abs(np.asarray(comb.electric_field) - (a * efx + b * efy)).max())
+    if not lin <= TOL * 4 * scale:
+        bad.append(('linear complex-index ' + kind, 'forward(a x + b y) differs from a forward(x) + b forward(y) by %.3g (n=%r)' % (lin, cn)))
+    lhs, rhs = inner(np.asarray(y), efx, w), inner(np.asarray(by.electric_field), np.asarray(x), w)
+    if not abs(lhs - rhs) <= TOL * max(1.0, abs(lhs), abs(rhs)):
+        bad.append(('adjoint complex-index ' + kind, '<y, forward x> = %r but <backward y, x> = %r (n=%r)' % (lhs, rhs, cn)))
+    if reg['stated'] and z != 0 and abs(reg['slack']) > Fraction(1, 10 ** 7) * max(Fraction(case['delta'][0]), Fraction(case['delta'][1])):
+        # passive medium (Im n > 0): the regime clauses
+        pre = 'complex-index-fresnel-negative-z ' if kind == 'fresnel' else 'complex-index '
+        p_in, p_out = float(wfx.total_power), float(fx.total_power)
+        if not p_out <= p_in * (1 + TOL) + TOL:
+            bad.append(((pre if z < 0 else 'complex-index ') + 'power-increase ' + kind,
+                        'total power %r -> %r in an absorbing medium n=%r, adequately sampled (z=%r)' % (p_in, p_out, cn, z)))
+        d = float(np.abs(np.asarray(fm.electric_field) - np.asarray(bx.electric_field)).max())
+        if not d <= TOL * max(1.0, float(np.abs(np.asarray(bx.electric_field)).max())):
+            bad.append((pre + 'neg-z ' + kind, 'forward(-z) differs from backward(+z) by %.3g in an absorbing medium n=%r (z=%r)' % (d, cn, z)))
+    return bad
+
+
+def run_ccases(ctx):
+    for _ in range(ctx.scale(40, 500)):
+        case = gen_ccase(ctx.rng)
+        for key, what in oracle_ccase(case):
+            ctx.violation(key, what, case)
+        ctx.count('complex-index:%s z%s' % (case['kind'], '+' if case['z'] > 0 else '-'))
+        ctx.case({k: case[k] for k in ('kind', 'dims', 'delta', 'lam', 'z', 'n', 'n_im', 'q', 's')},
+                 nontrivial_key=('complex-index', case['kind'], tuple(case['dims']), case['z'] > 0, case['n'], case['n_im'], _vkey(case['q']), _vkey(case['s'])))
+
 
 def run(ctx):
     ctx.rule = ('Fresh FresnelPropagator / AngularSpectrumPropagator per case on regular grids 2..16 per axis (thorough ..24; odd, even, '
@@ -1518,6 +1588,7 @@ def run(ctx):
         run_mcases(ctx)
         run_fcases(ctx)
         run_dsessions(ctx)
+        run_ccases(ctx)
     if ctx.boundary_skipped > 0.10 * max(1, ctx.evaluations):
         raise MachineryError('too many boundary-skipped cases (%d of %d)' % (ctx.boundary_skipped, ctx.evaluations))
 
@@ -1525,8 +1596,8 @@ def run(ctx):
 def replay(ctx, case):
     with warnings.catch_warnings():
         warnings.simplefilter('ignore')
-        bad = oracle_session(case['session']) if 'session' in case else oracle_dsession(case['dsession']) if 'dsession' in case else (oracle_mcase(case['mcase']) if 'mcase' in case else (oracle_fcase(case['fcase']) if 'fcase' in case else oracle_case(case)))
-        if isinstance(case, dict) and case.get('peraxis'):
+        bad = oracle_ccase(case) if 'n_im' in case else oracle_session(case['session']) if 'session' in case else oracle_dsession(case['dsession']) if 'dsession' in case else (oracle_mcase(case['mcase']) if 'mcase' in case else (oracle_fcase(case['fcase']) if 'fcase' in case else oracle_case(case)))
+        if isinstance(case, dict) and case.get('peraxis') and 'n_im' not in case:
             obs = {}
             bad = oracle_case(case, observe=obs)
             if 'prop' in obs:
